@@ -701,20 +701,26 @@ class C16(Check):
     prop_modules = ["WntrModel.Props.C16"]
     manifest = dict(
         category="proof",
-        text="Lean theorems over a transliteration of run_sim's outer loop, for every world of controls/solvers (arbitrary functions of a "
-        "hidden state) and every failing call: termination within (max(duration,t0)-prev0)*(max(trials,0)+1)+1 passes with the fuelled "
-        "function equal to the unbounded semantics (run_terminates, runs_deterministic), results.time strictly increasing = accepted steps "
-        "filtered by the report grid, node/link lists one row per reported time, 'already solved' unreachable "
-        "(times_strictly_increasing_on_grid, result_tables_share_index), a failed solver phase / trial overflow leaves the loop in that pass "
-        "with RuntimeError or error flag according to convergence_error and reports nothing (failure_stops_and_flags, "
-        "trial_overflow_stops_and_flags, never_hidden), and what was reported is a prefix of the run whose solver agrees on the earlier "
-        "calls (failure_prefix). The model is tied to the code by executing both on the observed streams of every fault-injected run.",
+        text="Lean theorems about the loop program that a Python-ast translator regenerates from run_sim on every run "
+        "(Gen/RunLoopShape: ordered statements, each branch with its raise / error flag / break / continue, trial reset and increment, "
+        "report-grid test, end test, early return): generated_shape_is_ref (decide) + stepS_ref/runSimS_ref (the interpreter on that "
+        "program IS the model) carry every theorem to the generated program. For every world of controls/solvers (arbitrary functions "
+        "of a hidden state) and every failing call: termination within (max(duration,t0)-prev0)*(max(trials,0)+1)+1 passes, fuelled = "
+        "unbounded semantics (run_terminates, runs_deterministic); results.time strictly increasing = accepted steps filtered by the "
+        "report grid, one node/link row per reported time, 'already solved' unreachable (times_strictly_increasing_on_grid); a failed "
+        "solver phase / trial overflow leaves the loop in that pass with RuntimeError or error flag according to convergence_error and "
+        "reports nothing (failure_stops_and_flags, trial_overflow_stops_and_flags, never_hidden); reported rows are a prefix of the run "
+        "whose solver agrees on the earlier calls (failure_prefix); a completed run continued is a no-op with empty tables "
+        "(continued_completed_noop); tables have exactly one column per element for every edit history (one_column_per_element, on the "
+        "C14 registry invariant). The driver executes the interpretation of the generated program on the observed streams of every "
+        "fault-injected run.",
         design_ref="DESIGN.md §5 C16",
         note="modelled, not verified: the inside of _compute_next_timestep_and_run_presolve_controls_and_rules (an oracle with the contract "
         "prev < t' <= cur, checked on every observed call; proved for time conditions in Lemmas/Time, Lemmas/Sched; contract_needed shows "
-        "run_sim relies on it), NewtonSolver/scipy (status class only), save_results/get_results/pandas (oracle only: shared index, one "
-        "column per element, finite numbers, exact prefix equality are checked on the real tables, not proved)",
-        technique="Lean 4 proof over a hand-written loop model + fault-injection differential run (substituted _solver_helper, spsolve) "
+        "run_sim relies on it), NewtonSolver/scipy (status class only), the world calls inside the loop (feasibility controls, graph / model "
+        "updates, store_results_in_network: positions recorded in the generated program, effect inside the oracles), pandas; oracle only: "
+        "finite numbers and prefix VALUES (1e-6 relative, WNTR runs are not bit-reproducible) on the real tables",
+        technique="Lean 4 proof over a loop program regenerated from the source by an ast translator + fault-injection differential run (substituted _solver_helper, spsolve) "
         "against the Lean driver + statement oracle on the real tables",
     )
     rule = (
